@@ -170,7 +170,7 @@ def generate(ctx, rng):
         cover["pstore_sim"] = {"behaviours": len(sims)}
         ctx.log("gen pstore (simulation of the wide config): %d scripts" % len(sims))
         scripts += sims
-    # the design-level witness (TLC counterexample of SerialLawAny: Unmarshal onto a non-empty state)
+    # the scenario of the refutation witness (Unmarshal onto a non-empty state holding other CIDs)
     # is part of the xfer scripts already (path "serial", tgt0 non-empty); make sure of it:
     if not any(s["m"] == "xfer" and s["path"] == "serial" and s["tgt0"] and
                set(e["c"] for e in s["tgt0"]) - set(e["c"] for e in s["src"]) for s in scripts):
@@ -207,9 +207,12 @@ def run(ctx):
         ctx.tlc(MOD, "Persist_rot_thorough.cfg", timeout=1500)
         ctx.tlc(MOD, "Persist_rot_rekeep.cfg", timeout=1500)
         ctx.tlc(MOD, "Persist_pstore.cfg", timeout=3000, workers=12)
-    # design-level finding: with Unmarshal as coded ("merge") the serialise/deserialise law fails on a non-empty target
+    # refutation witness: an Unmarshal that merges (the code before 2eb6568) violates SerialLawAny on a non-empty
+    # target; the as-coded "replace" satisfies it (checked above) and the real code is held to it by PersistTrace
     w = ctx.tlc(MOD, "Persist_xfer_witness.cfg", count=False, expect_violation=True, timeout=600)
-    ctx.extra["design_witness_unmarshal_merge"] = bool(w.violation)
+    if not w.violation:
+        raise vcheck.Infra("the merge variant of Unmarshal no longer refutes SerialLawAny: the law has become vacuous")
+    ctx.extra["refutation_witness_unmarshal_merge"] = True
     ctx.exhaustive = True
     # GEN
     scripts = generate(ctx, rng)
